@@ -132,6 +132,10 @@ func (bkt *Bucket) gcCheckEnd(start, endChunkID, noGCDays int) (end int, err err
 	if noGCDays < 0 {
 		noGCDays = Conf.NoGCDays
 	}
+	// the age limit is compared in seconds: keep the product within int64
+	if maxDays := int64(1<<63-1) / 86400; int64(noGCDays) > maxDays {
+		noGCDays = int(maxDays)
+	}
 	for next := end + 1; next >= start+1; next-- {
 		if bkt.datas.chunks[next].getDiskFileSize() <= 0 {
 			continue
